@@ -381,7 +381,7 @@ func (sc *serverConn) readLoop() (err error) {
 		case FrameSettings:
 			st := fr.Body().(*Settings)
 			if !st.IsAck() { // if it has ack, just ignore
-				sc.handleSettings(st)
+				sc.handleSettings(fr)
 				// forward to handleStreams so the INITIAL_WINDOW_SIZE delta is
 				// applied to open streams in frame order.
 				verifForwarded()
@@ -1771,8 +1771,14 @@ func (sc *serverConn) writeLoop() {
 	}
 }
 
-func (sc *serverConn) handleSettings(st *Settings) {
-	st.CopyTo(&sc.clientS)
+func (sc *serverConn) handleSettings(in *FrameHeader) {
+	// A setting the frame does not mention keeps the value the peer gave it
+	// before (RFC 7540 6.5.3), so the frame is applied on top of what we hold.
+	// Copying the decoded frame instead brought every setting it left out back
+	// to its default: a peer that had set SETTINGS_HEADER_TABLE_SIZE to 0 got
+	// a 4096 octet table again with its next SETTINGS frame. The payload has
+	// been validated by Deserialize already.
+	_ = sc.clientS.Read(in.payload)
 	sc.enc.SetMaxTableSize(sc.clientS.HeaderTableSize())
 
 	// The per-stream send windows are adjusted in handleStreams, where the
